@@ -82,6 +82,16 @@ CHECKS = {
             "Relative tolerance 256 eps n (1+SINR) (the library subtracts the own-stream covariance); K >= 2 with generic precoders so denominators are positive; the solver API has no ext-int input so solver-vs-ext-int is outside its domain.",
             "independent first-principles oracle vs the real SINR/covariance methods over generated multi-round histories",
             "DESIGN.md §5 C11"),
+    "C08": ("exploration",
+            "Operation histories (5-40 ops: randomize with the same or a new antenna configuration, init from a matrix, set/change/remove "
+            "path loss, noise variance, post filters, single-view reads, full reads, corrupt_data) are run on plain and ext-int "
+            "objects in lock-step with a reference model that holds the raw matrix (known from init, or read from an identically "
+            "seeded twin that never gets a path loss); after reads every view (H, big_H, get_Hkl, get_Hk, big_H_no_ext_int, "
+            "H_no_ext_int, get_Hk_without_ext_int) must equal raw*sqrt(current path loss) within 4 ulp, and every transmission must "
+            "equal W^H(big_H x + last_noise) split by receive antennas, with last_noise None iff no noise.",
+            "Post filters are square per receiver; the user count is not changed while a path loss is in force; randomness of the noise itself is not checked, only that exactly the reported noise was added.",
+            "reference-model lock-step over generated operation histories (dense and sparse read patterns)",
+            "DESIGN.md §5 C08"),
 }
 
 PENDING_REASON = "check not built yet in this session (design in DESIGN.md §5); will be claimed once its monitors run clean on the unchanged tree"
